@@ -32,3 +32,174 @@ package parser
 //@ func CircleDetect(ast *Thrift) string
 //@   requires wfIncludes()
 //@   ensures ast != nil && result == "" ==> forall j int :: 0 <= j && j < len(ast.Includes) ==> ast.Includes[j].Reference == nil || ast.Includes[j].Reference.Filename != ast.Filename
+
+// ---- syntax-tree walker (property C03) ----
+// wfPEG(): every node32 obeys the child-sequence automata derived from thrift.peg (see /verif/engine/pegshape.go);
+// wfPEG(p) additionally ties token ranges to p.buffer.
+
+//@ func checkrule(node *node32, rule pegRule) (*node32, error)
+//@   requires node != nil && wfPEG()
+//@   ensures result1 == nil ==> node.pegRule == rule && result0 == node.up
+//@   ensures result1 != nil ==> result0 == nil && node.pegRule != rule
+
+//@ func (p *parser) pegText(node *node32) string
+//@   requires p != nil && wfPEG(p)
+//@   loop 1 invariant wfPEG(p)
+//@   loop 1.1 invariant n != nil && n.pegRule == rulePegText && n.begin <= i && i <= n.end
+
+//@ func (p *parser) parseCppInclude(node *node32) (err error)
+//@   requires p != nil && node != nil && wfPEG(p)
+//@   ensures wfP(p) == old(wfP(p))
+//@   ensures err == nil ==> len(p.CppIncludes) == old(len(p.CppIncludes)) + 1 && forall k int :: 0 <= k && k < old(len(p.CppIncludes)) ==> p.CppIncludes[k] == old(p.CppIncludes[k])
+//@   ensures p.Includes == old(p.Includes) && p.Namespaces == old(p.Namespaces) && p.Typedefs == old(p.Typedefs) && p.Constants == old(p.Constants) && p.Enums == old(p.Enums) && p.Structs == old(p.Structs) && p.Unions == old(p.Unions) && p.Exceptions == old(p.Exceptions) && p.Services == old(p.Services)
+//@   modifies p.Thrift
+
+// The matcher's tree constructor (generated code): assumed to return the root of a tree that obeys wfPEG.
+//@ func (t *tokens32) AST() *node32
+//@   trusted
+
+//@ pure func wfP(p *parser) bool { return forall i int :: 0 <= i && i < len(p.Includes) ==> p.Includes[i] != nil }
+
+//@ func addField(fields []*Field, field *Field) []*Field
+//@   requires field != nil && (forall i int :: 0 <= i && i < len(fields) ==> fields[i] != nil && fields[i] != field)
+//@   ensures len(result) == len(fields) + 1 && result[len(fields)] == field && forall k int :: 0 <= k && k < len(fields) ==> result[k] == fields[k]
+//@   ensures old(field.ID) != NOTSET ==> field.ID == old(field.ID)
+//@   ensures old(field.ID) == NOTSET && len(fields) == 0 ==> field.ID == 1
+//@   ensures old(field.ID) == NOTSET && len(fields) > 0 ==> field.ID == old(fields[len(fields)-1].ID) + 1
+//@   modifies field.ID
+
+//@ func (a *Annotations) Append(key, value string)
+//@   requires a != nil && forall i int :: 0 <= i && i < len(*a) ==> (*a)[i] != nil
+//@   ensures (exists i int :: 0 <= i && i < len(old(*a)) && old((*a)[i].Key) == key) ==> len(*a) == len(old(*a))
+//@   ensures (forall i int :: 0 <= i && i < len(old(*a)) ==> old((*a)[i].Key) != key) ==> len(*a) == len(old(*a)) + 1 && (*a)[len(old(*a))] != nil && (*a)[len(old(*a))].Key == key && len((*a)[len(old(*a))].Values) == 1 && (*a)[len(old(*a))].Values[0] == value
+//@   ensures forall i int :: 0 <= i && i < len(old(*a)) ==> (*a)[i] == old((*a)[i]) && (*a)[i].Key == old((*a)[i].Key)
+//@   ensures forall i int :: 0 <= i && i < len(*a) ==> (*a)[i] != nil
+//@   modifies *a, Annotation.Values
+//@   loop 1 invariant *a == old(*a) && forall i int :: 0 <= i && i < $i ==> (*a)[i].Key != key
+
+//@ func (p *parser) parse() (err error)
+//@   requires p != nil && wfPEG(p) && wfP(p)
+//@   modifies p.Thrift, p.Annotations, p.DefinitionReservedComment, box(Annotations), Field.ID, Field.Requiredness, Annotation.Values
+//@   loop 1 invariant (n == nil || pegowner(n) == ruleDocument) && wfP(p)
+
+//@ func (p *parser) parseHeader(node *node32) (err error)
+//@   requires p != nil && node != nil && wfPEG(p) && wfP(p)
+//@   ensures wfP(p)
+//@   modifies p.Thrift, Annotation.Values
+
+//@ func (p *parser) parseInclude(node *node32) (err error)
+//@   requires p != nil && node != nil && wfPEG(p) && wfP(p)
+//@   ensures wfP(p)
+//@   modifies p.Thrift
+//@   loop 1 invariant true
+
+//@ func (p *parser) parseNamespace(node *node32) (err error)
+//@   requires p != nil && node != nil && wfPEG(p)
+//@   ensures p.Includes == old(p.Includes)
+//@   modifies p.Thrift, Annotation.Values
+
+//@ func (p *parser) parseDefinition(node *node32) (err error)
+//@   requires p != nil && node != nil && wfPEG(p)
+//@   ensures p.Includes == old(p.Includes)
+//@   modifies p.Thrift, p.Annotations, p.DefinitionReservedComment, box(Annotations), Field.ID, Field.Requiredness, Annotation.Values
+
+//@ func (p *parser) parseConst(node *node32) (err error)
+//@   requires p != nil && node != nil && wfPEG(p)
+//@   ensures err == nil ==> len(p.Constants) == old(len(p.Constants)) + 1 && p.Annotations != nil
+//@   ensures p.Includes == old(p.Includes)
+//@   modifies p.Thrift, p.Annotations, Annotation.Values
+
+//@ func (p *parser) parseFieldType(node *node32) (typ *Type, err error)
+//@   requires p != nil && node != nil && wfPEG(p)
+//@   ensures err == nil ==> typ != nil && fresh(typ) && typ.Reference == nil && typ.Category == 0 && typ.IsTypedef == nil
+//@   modifies Annotation.Values
+
+//@ func (p *parser) parseContainerType(node *node32) (typ *Type, err error)
+//@   requires p != nil && node != nil && wfPEG(p)
+//@   ensures err == nil ==> typ != nil && fresh(typ) && typ.Reference == nil && typ.Category == 0 && typ.IsTypedef == nil
+//@   ensures err == nil ==> (typ.Name == "map" || typ.Name == "set" || typ.Name == "list") && typ.ValueType != nil && (typ.Name == "map" ==> typ.KeyType != nil)
+//@   modifies Annotation.Values
+
+//@ func (p *parser) parseConstValue(node *node32) (cv *ConstValue, err error)
+//@   requires p != nil && node != nil && wfPEG(p)
+//@   ensures err == nil ==> cv != nil && cv.TypedValue != nil && cv.Extra == nil
+//@   loop 1 invariant (n == nil || pegowner(n) == ruleConstList) && forall k int :: 0 <= k && k < len(ret) ==> ret[k] != nil
+//@   loop 2 invariant (n == nil || (pegowner(n) == ruleConstMap && n.pegRule != ruleCOLON && (n.pegRule == ruleConstValue ==> pegnext(n, ruleCOLON)))) && forall k int :: 0 <= k && k < len(ret) ==> ret[k] != nil
+
+//@ func (p *parser) parseTypedef(node *node32) (err error)
+//@   requires p != nil && node != nil && wfPEG(p)
+//@   ensures err == nil ==> len(p.Typedefs) == old(len(p.Typedefs)) + 1 && p.Annotations != nil
+//@   ensures p.Includes == old(p.Includes)
+//@   modifies p.Thrift, p.Annotations, Annotation.Values
+
+//@ func (p *parser) parseEnum(node *node32) (err error)
+//@   requires p != nil && node != nil && wfPEG(p)
+//@   ensures err == nil ==> len(p.Enums) == old(len(p.Enums)) + 1 && p.Annotations != nil
+//@   ensures p.Includes == old(p.Includes)
+//@   modifies p.Thrift, p.Annotations, Annotation.Values
+//@   loop 1 invariant err == nil && (n == nil || pegowner(n) == ruleEnum) && forall k int :: 0 <= k && k < len(values) ==> values[k] != nil
+
+//@ func (p *parser) parseUnion(node *node32) (err error)
+//@   requires p != nil && node != nil && wfPEG(p)
+//@   ensures err == nil ==> len(p.Unions) == old(len(p.Unions)) + 1 && p.Annotations != nil
+//@   ensures p.Includes == old(p.Includes)
+//@   ensures err == nil ==> forall k int :: 0 <= k && k < len(p.Unions[old(len(p.Unions))].Fields) ==> p.Unions[old(len(p.Unions))].Fields[k] != nil
+//@   modifies p.Thrift, p.Annotations, Field.ID, Annotation.Values
+//@   loop 1 invariant (n == nil || pegowner(n) == ruleUnion) && forall k int :: 0 <= k && k < len(fields) ==> fields[k] != nil
+
+//@ func (p *parser) parseStruct(node *node32) (err error)
+//@   requires p != nil && node != nil && wfPEG(p)
+//@   ensures err == nil ==> len(p.Structs) == old(len(p.Structs)) + 1 && p.Annotations != nil
+//@   ensures p.Includes == old(p.Includes)
+//@   ensures err == nil ==> forall k int :: 0 <= k && k < len(p.Structs[old(len(p.Structs))].Fields) ==> p.Structs[old(len(p.Structs))].Fields[k] != nil
+//@   modifies p.Thrift, p.Annotations, Field.ID, Annotation.Values
+//@   loop 1 invariant (n == nil || pegowner(n) == ruleStruct) && forall k int :: 0 <= k && k < len(fields) ==> fields[k] != nil
+
+//@ func (p *parser) parseException(node *node32) (err error)
+//@   requires p != nil && node != nil && wfPEG(p)
+//@   ensures err == nil ==> len(p.Exceptions) == old(len(p.Exceptions)) + 1 && p.Annotations != nil
+//@   ensures p.Includes == old(p.Includes)
+//@   modifies p.Thrift, p.Annotations, Field.ID, Annotation.Values
+//@   loop 1 invariant (n == nil || pegowner(n) == ruleException) && forall k int :: 0 <= k && k < len(fields) ==> fields[k] != nil
+
+//@ func (p *parser) parseField(node *node32) (field *Field, err error)
+//@   requires p != nil && node != nil && wfPEG(p)
+//@   ensures err == nil ==> field != nil && fresh(field)
+//@   modifies Annotation.Values
+//@   loop 1 invariant node == nil || pegowner(node) == ruleField
+
+//@ func (p *parser) parseAnnotations(node *node32) ([]*Annotation, error)
+//@   requires p != nil && node != nil && wfPEG(p)
+//@   ensures forall i int :: 0 <= i && i < len(result0) ==> result0[i] != nil
+//@   modifies Annotation.Values
+//@   loop 1 invariant (node == nil || pegowner(node) == ruleAnnotations) && forall i int :: 0 <= i && i < len(ret) ==> ret[i] != nil
+
+//@ func (p *parser) parseAnnotation(node *node32) (k, v string, err error)
+//@   requires p != nil && node != nil && wfPEG(p)
+
+//@ func (p *parser) parseService(node *node32) (err error)
+//@   requires p != nil && node != nil && wfPEG(p)
+//@   ensures err == nil ==> len(p.Services) == old(len(p.Services)) + 1 && p.Annotations != nil
+//@   ensures p.Includes == old(p.Includes)
+//@   modifies p.Thrift, p.Annotations, Field.ID, Field.Requiredness, Annotation.Values
+//@   loop 1 invariant node == nil || pegowner(node) == ruleService
+
+//@ func (p *parser) parseFunction(node *node32) (fu *Function, err error)
+//@   requires p != nil && node != nil && wfPEG(p)
+//@   ensures err == nil ==> fu != nil
+//@   modifies Field.ID, Field.Requiredness, Annotation.Values
+//@   loop 1 invariant (node == nil || pegowner(node) == ruleFunction) && forall i int :: 0 <= i && i < len(f.Arguments) ==> f.Arguments[i] != nil
+
+//@ func (p *parser) parseThrows(node *node32) (fs []*Field, err error)
+//@   requires p != nil && node != nil && wfPEG(p)
+//@   ensures err == nil ==> forall i int :: 0 <= i && i < len(fs) ==> fs[i] != nil && fs[i].Requiredness == FieldType_Optional
+//@   modifies Field.ID, Field.Requiredness, Annotation.Values
+//@   loop 1 invariant (node == nil || pegowner(node) == ruleThrows) && forall i int :: 0 <= i && i < len(fields) ==> fields[i] != nil && fields[i].Requiredness == FieldType_Optional
+
+//@ func (p *parser) parseReservedComments(node *node32) (ReservedComments string, err error)
+//@   requires p != nil && node != nil && wfPEG(p)
+//@   loop 1 invariant node == nil || pegowner(node) == ruleSkip || pegowner(node) == ruleSkipLine
+
+//@ func (p *parser) parseReservedEndLineComments(node *node32) (ReservedComments string, err error)
+//@   requires p != nil && node != nil && wfPEG(p)
+//@   loop 1 invariant node == nil || pegowner(node) == ruleSkip || pegowner(node) == ruleSkipLine
